@@ -135,6 +135,22 @@ def resolve(self, symbols):
     return build_expression(self.tree, symbols=symbols)
 '''
 
+REF_BASE_PIECEWISE = """
+def _print_Piecewise(printer, expr, **kwargs):
+    from sympy.logic.boolalg import ITE, simplify_logic
+
+    def print_cond(cond):
+        if cond.has(ITE):
+            return printer._print(simplify_logic(cond))
+        else:
+            return printer._print(cond)
+
+    expr = sympy.simplify(expr)
+    exprs = [printer._print(arg.expr) for arg in expr.args]
+    conds = [print_cond(arg.cond) for arg in expr.args]
+    return tuple(conds), tuple(exprs)
+"""
+
 REF_DOPRINT = '''
 def _doprint(self, lhs, rhs, use_variable_prefix=False):
     if use_variable_prefix:
@@ -526,9 +542,94 @@ def run(ctx: Ctx):
     pwm = M.method("numpy", "_print_Piecewise")
     check_where_nesting(ctx, "R01.h", pwm)
     sp_ = sm.func("codegen/base.py", "_print_Piecewise")
-    locs = {norm(n.targets[0]): norm(n.value) for n in ast.walk(sp_.node) if isinstance(n, ast.Assign)}
-    okb = locs.get("exprs") == "[printer._print(arg.expr) for arg in expr.args]" and locs.get("conds") == "[print_cond(arg.cond) for arg in expr.args]" and any(isinstance(n, ast.Return) and norm(n.value) == "(tuple(conds), tuple(exprs))" for n in ast.walk(sp_.node))
-    ctx.check(okb, "R01.h", sp_.key("pairs"), "conditions and expressions of all pairs, aligned", f"base._print_Piecewise: conds/exprs are {locs.get('conds')} / {locs.get('exprs')}", sp_.where())
+    util.same_as_reference(ctx, "R01.h", "codegen/base.py", "_print_Piecewise", REF_BASE_PIECEWISE, "pairs", "conditions and expressions of all pairs, aligned", "base._print_Piecewise no longer returns (printed conditions, printed expressions) of the simplified pairs in their order")
+
+
+def atom_fields(sm, cls_name: str) -> list[str] | None:
+    """attrs fields (declared with attr.ib, through the package bases) of a class of atoms.py"""
+    out: list[str] = []
+    seen = set()
+
+    def rec(name):
+        cobj = next((c for (rel, qn), c in sm.classes.items() if qn == name and rel.endswith("atoms.py")), None)
+        if cobj is None or name in seen:
+            return cobj is not None
+        seen.add(name)
+        for b in cobj.bases:
+            if b.split(".")[-1] != "object" and not rec(b.split(".")[-1]):
+                return False
+        for st in cobj.node.body:
+            if isinstance(st, ast.AnnAssign) and isinstance(st.target, ast.Name) and isinstance(st.value, ast.Call) and (dotted(st.value.func) or "").split(".")[-1] in ("ib", "field"):
+                init = call_kw(st.value, "init")
+                if isinstance(init, ast.Constant) and init.value is False:
+                    continue
+                if st.target.id not in out:
+                    out.append(st.target.id)
+        return True
+
+    return out if rec(cls_name) else None
+
+
+def check_resolve_expression(ctx: Ctx, rule: str):
+    """For every class of assignment: the resolve_expression it inherits or defines returns an atom of the *same class*
+    whose expr is its own tree resolved against the given symbols and whose other fields are its own."""
+    from sa import av as _avr
+
+    from .c03 import _branches
+
+    sm = ctx.sm
+    classes = {qn: c for (rel, qn), c in sm.classes.items() if rel.endswith("atoms.py")}
+    for cls in ("Assignment", "Intermediate", "StateDerivative"):
+        if cls not in classes:
+            continue
+        # method resolution through the package bases
+        owner, m = cls, None
+        chain = [cls]
+        while chain and m is None:
+            owner = chain.pop(0)
+            cobj = classes.get(owner)
+            if cobj is None:
+                break
+            m = cobj.methods.get("resolve_expression")
+            chain.extend(b.split(".")[-1] for b in cobj.bases)
+        key = f"src/gotranx/atoms.py::{cls}.resolve_expression::own-tree"
+        if m is None:
+            ctx.broken(f"{cls} has no resolve_expression (anchor vanished)")
+        fields = atom_fields(sm, cls)
+        v = util.value_of(ctx, m)
+        sym_p = m.params[1] if len(m.params) > 1 else "symbols"
+        E = ("mcall", ("sym", "self.value"), "resolve", (("sym", sym_p),), ())
+        leaves = [(c, leaf) for c, leaf in _branches(v) if leaf[0] != "raise"]
+        if fields is None or len(leaves) != 1 or _avr.has_unk(v):
+            ctx.undecided(rule, key, f"what {owner}.resolve_expression returns is not understood", m.where())
+            continue
+        leaf = leaf0 = leaves[0][1]
+        bad = None
+        if leaf[0] == "call" and leaf[1] in ("attr.evolve", "attrs.evolve"):
+            kw = dict(leaf[3])
+            if leaf[2] != (("sym", "self"),):
+                bad = f"evolves {_avr.show(leaf[2][0]) if leaf[2] else 'nothing'}, not self"
+            elif kw.get("expr") != E:
+                bad = f"expr is {_avr.show(kw.get('expr')) if 'expr' in kw else 'not replaced'}, not the atom's own tree resolved against the given symbols"
+            elif set(kw) - {"expr"}:
+                bad = f"fields {sorted(set(kw) - {'expr'})} are replaced too"
+        elif leaf[0] == "call" and leaf[1] in ("type(self)", "self.__class__", cls, owner) and not leaf[2]:
+            kw = dict(leaf[3])
+            if leaf[1] == owner and owner != cls:
+                bad = f"a {cls} is resolved into a {owner} (the class is spelled out in the inherited method)"
+            else:
+                for fld in fields:
+                    want = E if fld == "expr" else ("sym", f"self.{fld}")
+                    if kw.get(fld) != want:
+                        bad = f"field `{fld}` of the new atom is {_avr.show(kw[fld]) if fld in kw else 'left at its default'}, not {_avr.show(want)}"
+                        break
+                extra = set(kw) - set(fields)
+                if bad is None and extra:
+                    bad = f"unknown fields {sorted(extra)}"
+        else:
+            ctx.undecided(rule, key, f"{owner}.resolve_expression builds the new atom in a way that is not recognised ({_avr.show(leaf0)[:120]})", m.where())
+            continue
+        ctx.check(bad is None, rule, key, "expr = own tree resolved; every other field kept; same class", f"{cls}.resolve_expression (defined in {owner}) does not build the new atom from its own resolved tree with all other fields kept: {bad}", m.where())
 
 
 def check_where_nesting(ctx: Ctx, rule: str, f):
@@ -586,8 +687,7 @@ def assembly(ctx: Ctx, rule: str):
             base, _extra = odemodel.setitem_chain(passed) if passed is not None else (None, {})
             okm = comps == ("sym", "components") and base is not None and odemodel.field_of(base, 2) is not None
         ctx.check(okm, rule, mo.key("symbol-table"), "symbols of all components (gather_atoms) are used to resolve", "make_ode does not resolve the expressions of the given components with the symbol table gathered from all components", mo.where())
-    for cls, ref_ in (("Assignment", REF_ASSIGNMENT_RESOLVE), ("StateDerivative", REF_DERIVATIVE_RESOLVE)):
-        util.same_as_reference(ctx, rule, "atoms.py", f"{cls}.resolve_expression", ref_, "own-tree", "expr = own tree resolved; every other field kept", f"{cls}.resolve_expression does not build the new atom from its own resolved tree with all other fields kept")
+    check_resolve_expression(ctx, rule)
     util.same_as_reference(ctx, rule, "atoms.py", "Expression.resolve", REF_EXPRESSION_RESOLVE, "", "build_expression(self.tree, symbols)", "Expression.resolve is not build_expression(self.tree, symbols=symbols)")
     from sa import av as _av
 
